@@ -30,6 +30,9 @@
 EXTENDS Naturals, Sequences, FiniteSets, TLC, Json
 
 CONSTANT Slices      \* set of slice names to enumerate (see Domain)
+CONSTANT Fixed       \* TRUE: the code as repaired (8cfb4b4, e2ea26f, 23d37db); FALSE: the pinned original with the five
+                     \* named deviations K1..K5 (kept as a regression probe of the model).  spec/variant.json "WireFixed"
+                     \* says which variant the real code is compared with.
 VARIABLE inst        \* [cls |-> class name, slice |-> slice name, v |-> abstract instance]
 
 OptStr  == {"absent", "empty", "val"}
@@ -63,8 +66,14 @@ ExactMs(t) == IF t = "unlucky" THEN "msU" ELSE ToMs(t)           \* what an exac
 FromMs(m) == CASE m = "msA" -> "aligned" [] m = "msU1" -> "unluckyM1" [] m = "msU" -> "unlucky"
                [] m = "msD" -> "driftM" [] m = "msS" -> "submsT" [] m = "msZ" -> "tzoffU"
                [] m = "ms0" -> "epoch0" [] OTHER -> "baddt"
-ConvOut(w) == IF Truthy(w) THEN ToMs(w) ELSE w                   \* if ts := result.get(K): result[K] = to_unix_millis(ts)
-ConvIn(w)  == IF Truthy(w) THEN FromMs(w) ELSE w                 \* if ms := data.get(K): data[K] = from_unix_millis(ms)
+FromMsExact(m) == CASE m = "msD" -> "drift" [] m = "msU1" -> "unluckyM1" [] OTHER -> FromMs(m)   \* EPOCH + timedelta(milliseconds=ms)
+IsNone(w)  == w \in {"nokey", "none"}
+\* original:  if ts := result.get(K): result[K] = to_unix_millis(ts)       with int(dt.timestamp() * 1000)
+\* repaired:  if (ts := result.get(K)) is not None: ...                    with (dt - EPOCH) // timedelta(milliseconds=1)
+ConvOut(w) == IF Fixed THEN (IF IsNone(w) THEN w ELSE ExactMs(w)) ELSE (IF Truthy(w) THEN ToMs(w) ELSE w)
+\* original:  if ms := data.get(K): data[K] = from_unix_millis(ms)         with fromtimestamp(ms / 1000, tz=UTC)
+\* repaired:  if (ms := data.get(K)) is not None: ...                      with EPOCH + timedelta(milliseconds=ms)
+ConvIn(w)  == IF Fixed THEN (IF IsNone(w) THEN w ELSE FromMsExact(w)) ELSE (IF Truthy(w) THEN FromMs(w) ELSE w)
 
 -----------------------------------------------------------------------------
 (* ErrorObject *)
@@ -181,9 +190,13 @@ OpToDict(o) ==
    SubType |-> IfT(o.sub_type),
    ExecutionDetails |-> IF o.execution_details.p
         THEN [has |-> TRUE, InputPayload |-> Put(o.execution_details.input_payload)] ELSE WNoExec,
-   \* line 818-819: only Result is emitted (K1)
+   \* original (818-819): only Result is emitted (K1).
+   \* repaired: Result always (possibly None); ReplayChildren only `if self.context_details.replay_children` (i.e. when True);
+   \*           Error `if self.context_details.error` (any ErrorObject instance is truthy; its to_dict() may be {})
    ContextDetails |-> IF o.context_details.p
-        THEN [has |-> TRUE, ReplayChildren |-> "nokey", Result |-> Put(o.context_details.result), Error |-> WNoErr] ELSE WNoCtx,
+        THEN [has |-> TRUE, ReplayChildren |-> IF Fixed THEN IfT(o.context_details.replay_children) ELSE "nokey",
+              Result |-> Put(o.context_details.result),
+              Error |-> IF Fixed THEN EmitErr(o.context_details.error) ELSE WNoErr] ELSE WNoCtx,
    StepDetails |-> IF o.step_details.p
         THEN [has |-> TRUE, Attempt |-> o.step_details.attempt,
               NextAttemptTimestamp |-> IfT(o.step_details.next_attempt_timestamp),
@@ -241,12 +254,13 @@ OpFromDict(w) ==
    callback_details |-> IF CbNonEmpty(w.CallbackDetails)
         THEN [p |-> TRUE, callback_id |-> w.CallbackDetails.CallbackId,
               result |-> Get(w.CallbackDetails.Result), error |-> ReadErr(w.CallbackDetails.Error)] ELSE NoCb,
-   \* lines 775-779: `chained_invoke_details = None` and then `if chained_invoke_details := data.get(...)`: the walrus
-   \* rebinds the SAME name, so an empty dict {} (falsy) is what ends up in the Operation (K5), not None
+   \* original 775-779: `chained_invoke_details = None` and then `if chained_invoke_details := data.get(...)`: the walrus
+   \* rebinds the SAME name, so an empty dict {} (falsy) is what ends up in the Operation (K5), not None.
+   \* repaired: the walrus binds chained_invoke_details_input
    chained_invoke_details |-> IF InvNonEmpty(w.ChainedInvokeDetails)
         THEN [p |-> TRUE, result |-> Get(w.ChainedInvokeDetails.Result),
               error |-> ReadErr(w.ChainedInvokeDetails.Error)]
-        ELSE IF w.ChainedInvokeDetails.has THEN RawInv ELSE NoInv]
+        ELSE IF ~Fixed /\ w.ChainedInvokeDetails.has THEN RawInv ELSE NoInv]
 
 (* to_json_dict / from_json_dict (855-926): the four timestamps, each behind a truthiness test *)
 JsonTs(w, Conv(_)) ==
@@ -505,7 +519,8 @@ K5dec(x) == K5of(x, {"absent"})              \* an exact encoder omits only None
 K2of(x) == TsOf(x, "epoch0")
 K3of(x) == TsOf(x, "unlucky")
 K4of(x) == TsOf(x, "drift")
-Expected(x) == IF x.cls \in {"StateOutput", "CheckpointUpdatedExecutionState", "CheckpointOutput"}
+Expected(x) == IF Fixed THEN NoLoss                    \* repaired code: nothing may be lost, there is no Known escape
+               ELSE IF x.cls \in {"StateOutput", "CheckpointUpdatedExecutionState", "CheckpointOutput"}
                THEN [NoLoss EXCEPT !.idict = K5dec(x)]          \* decode-only classes
                ELSE
                [dict |-> K1of(x) \cup K5enc(x), json |-> K1of(x) \cup K2of(x) \cup K3of(x) \cup K4of(x) \cup K5enc(x),
@@ -554,6 +569,7 @@ Sigs(x) == LET l == Losses(x) a == UnionOf(l) IN
 
 (* INVARIANTS (each evaluates the round trips once) *)
 Inv_LosslessOrKnown == LET l == Losses(inst) IN LosslessL(l) \/ KnownL(l, Expected(inst))     \* = Lossless(inst) \/ Known(inst)
+Inv_Lossless == Fixed => Lossless(inst)                    \* the repaired code: Lossless without any escape
 Inv_UpdateCarriesOptions == UpdateCarriesOptions(inst)
 Inv_KnownExact == LET l == Losses(inst) e == Expected(inst) IN \A k \in Kinds : l[k] = e[k]   \* the named scenarios characterise the losses exactly
 (* all three at once, for the quick tier *)
